@@ -216,4 +216,43 @@ def dedupDecode (m : List (Nat Ã— List Nat)) (mons : List HtlcRef) : List (Nat Ã
 /-- (inbound channel, id) pairs waiting in a decode map -/
 def decodeRefs (m : List (Nat Ã— List Nat)) : List HtlcRef := m.flatMap (fun e => e.2.map (fun i => âŸ¨e.1, iâŸ©))
 
+/-! ## Outbound HTLCs of a channel that was closed on chain: what the reload fails -/
+
+/-- what a closed channel's monitor knows about the funding spend when the manager is read -/
+structure ClosedMon where
+  /-- `funding_spend_confirmed` is set (the FundingSpendConfirmation entry matured in the monitor) -/
+  matured : Bool
+  /-- height of the pending FundingSpendConfirmation entry (the closing transaction is confirmed but not matured) -/
+  spendHeight : Option Nat
+  /-- the monitor's best block height -/
+  best : Nat
+  deriving DecidableEq, Repr, Inhabited
+
+/-- where an outbound HTLC (known from the unrevoked counterparty commitments) is with respect to the confirmed
+    commitment transaction -/
+inductive HtlcPos where
+  /-- not in the confirmed commitment at all (only in another â€” e.g. newer â€” commitment) -/
+  | absent
+  /-- in it, below the dust limit (no output) -/
+  | dust
+  /-- an output of it; `failedOnChain`: that output was irrevocably resolved on chain without a preimage -/
+  | output (failedOnChain : Bool)
+  deriving DecidableEq, Repr, Inhabited
+
+-- mirrors channelmonitor.rs get_onchain_failed_outbound_htlcs: `confirmed_txid.is_some()`
+def ClosedMon.confirmedForReload (m : ClosedMon) : Bool :=
+  m.matured || (match m.spendHeight with | some h => fundingSpendBuried h m.best | none => false)
+
+-- mirrors channelmonitor.rs get_onchain_failed_outbound_htlcs (per candidate HTLC): is it in the returned set, i.e. does
+-- from_channel_manager_data fail it (PaymentFailed for an own payment, fail-back for a forward) with reason OnChainTimeout
+def failedOnReload (m : ClosedMon) (pos : HtlcPos) (resolvedToUser : Bool) : Bool :=
+  m.confirmedForReload && !resolvedToUser &&
+    (match pos with
+     | .absent => true
+     | .dust => true
+     | .output failedOnChain => failedOnChain)
+
+/-- confirmations of the closing transaction in the monitor's view -/
+def ClosedMon.confirmations (m : ClosedMon) : Nat := match m.spendHeight with | some h => m.best + 1 - h | none => 0
+
 end Ldk.Restart
